@@ -1,7 +1,7 @@
 /-
 Helper lemmas for C16: the memoised quick matcher refines the general
-evaluator; the code-shaped loops refine the stateless list specification;
-journal-level invariants of `load`.
+evaluator; the code-shaped loop refines the stateless specification; closed
+forms for any()/all()-free predicates; journal-level invariants of `load`.
 -/
 import LedgerModel.Model.AutoXact
 
@@ -23,10 +23,96 @@ theorem mul_comm_field (env : PrecEnv) (a b : Amount) :
     (Amount.mul env a b).comm = if a.hasComm then a.comm else b.comm := by
   unfold Amount.mul; rw [clampPrec_comm]
 
+/-! ### notes only touch the note -/
+
+theorem appendNote_fields (p : FPost) (t : String) :
+    (p.appendNote t).account = p.account ∧ (p.appendNote t).kind = p.kind ∧ (p.appendNote t).state = p.state ∧
+    (p.appendNote t).amount = p.amount ∧ (p.appendNote t).cost = p.cost ∧ (p.appendNote t).line = p.line ∧
+    (p.appendNote t).generated = p.generated ∧ (p.appendNote t).calculated = p.calculated :=
+  ⟨rfl, rfl, rfl, rfl, rfl, rfl, rfl, rfl⟩
+
+/-- two postings that differ at most in their note -/
+def SameButNote (p q : FPost) : Prop :=
+  p.account = q.account ∧ p.kind = q.kind ∧ p.state = q.state ∧ p.amount = q.amount ∧ p.cost = q.cost ∧
+  p.line = q.line ∧ p.generated = q.generated ∧ p.calculated = q.calculated
+
+theorem SameButNote.refl (p : FPost) : SameButNote p p := ⟨rfl, rfl, rfl, rfl, rfl, rfl, rfl, rfl⟩
+
+theorem SameButNote.trans {p q s : FPost} (h1 : SameButNote p q) (h2 : SameButNote q s) : SameButNote p s := by
+  obtain ⟨a1, a2, a3, a4, a5, a6, a7, a8⟩ := h1
+  obtain ⟨b1, b2, b3, b4, b5, b6, b7, b8⟩ := h2
+  exact ⟨a1.trans b1, a2.trans b2, a3.trans b3, a4.trans b4, a5.trans b5, a6.trans b6, a7.trans b7, a8.trans b8⟩
+
+theorem foldl_appendNote_same (ts : List String) : ∀ (p : FPost), SameButNote (ts.foldl FPost.appendNote p) p := by
+  induction ts with
+  | nil => intro p; exact SameButNote.refl p
+  | cons t ts ih =>
+    intro p
+    simp only [List.foldl_cons]
+    exact (ih (p.appendNote t)).trans (appendNote_fields p t)
+
+theorem foldl_appendNote_note (ts : List String) :
+    ∀ (p : FPost), (ts.foldl FPost.appendNote p).note =
+      ts.foldl (fun (n : Option String) t => some (match n with
+                                                    | some s => s ++ "\n" ++ t
+                                                    | none => t)) p.note := by
+  induction ts with
+  | nil => intro p; rfl
+  | cons t ts ih => intro p; simp only [List.foldl_cons]; rw [ih]; rfl
+
+theorem annotate_same (r : Rule) (p : FPost) : SameButNote (annotate r p) p :=
+  foldl_appendNote_same _ p
+
+/-! ### the predicate does not read notes; any()/all()-free predicates do not read the context -/
+
+theorem eval_sameButNote (m : Matcher) (ctx : List FPost) (payee : String) (p q : FPost) (h : SameButNote p q) :
+    ∀ pr : Pred, pr.anyFree = true → pr.eval m ctx payee p = pr.eval m ctx payee q := by
+  intro pr
+  induction pr with
+  | const c => intro _; rfl
+  | acct pat => intro _; simp [Pred.eval, h.1]
+  | payee pat => intro _; rfl
+  | amtGt n => intro _; simp [Pred.eval, h.2.2.2.1]
+  | amtLt n => intro _; simp [Pred.eval, h.2.2.2.1]
+  | amtGe n => intro _; simp [Pred.eval, h.2.2.2.1]
+  | amtLe n => intro _; simp [Pred.eval, h.2.2.2.1]
+  | not a iha => intro hf; simp only [Pred.anyFree] at hf; simp [Pred.eval, iha hf]
+  | and a b iha ihb =>
+    intro hf; simp only [Pred.anyFree, Bool.and_eq_true] at hf; simp [Pred.eval, iha hf.1, ihb hf.2]
+  | or a b iha ihb =>
+    intro hf; simp only [Pred.anyFree, Bool.and_eq_true] at hf; simp [Pred.eval, iha hf.1, ihb hf.2]
+  | ite c a b ihc iha ihb =>
+    intro hf; simp only [Pred.anyFree, Bool.and_eq_true] at hf
+    simp [Pred.eval, ihc hf.1.1, iha hf.1.2, ihb hf.2]
+  | any a _ => intro hf; simp [Pred.anyFree] at hf
+  | all a _ => intro hf; simp [Pred.anyFree] at hf
+
+theorem eval_anyFree_ctx (m : Matcher) (ctx ctx' : List FPost) (payee : String) (p : FPost) :
+    ∀ pr : Pred, pr.anyFree = true → pr.eval m ctx payee p = pr.eval m ctx' payee p := by
+  intro pr
+  induction pr with
+  | const c => intro _; rfl
+  | acct pat => intro _; rfl
+  | payee pat => intro _; rfl
+  | amtGt n => intro _; rfl
+  | amtLt n => intro _; rfl
+  | amtGe n => intro _; rfl
+  | amtLe n => intro _; rfl
+  | not a iha => intro hf; simp only [Pred.anyFree] at hf; simp [Pred.eval, iha hf]
+  | and a b iha ihb =>
+    intro hf; simp only [Pred.anyFree, Bool.and_eq_true] at hf; simp [Pred.eval, iha hf.1, ihb hf.2]
+  | or a b iha ihb =>
+    intro hf; simp only [Pred.anyFree, Bool.and_eq_true] at hf; simp [Pred.eval, iha hf.1, ihb hf.2]
+  | ite c a b ihc iha ihb =>
+    intro hf; simp only [Pred.anyFree, Bool.and_eq_true] at hf
+    simp [Pred.eval, ihc hf.1.1, iha hf.1.2, ihb hf.2]
+  | any a _ => intro hf; simp [Pred.anyFree] at hf
+  | all a _ => intro hf; simp [Pred.anyFree] at hf
+
 /-! ### quick evaluator -/
 
-theorem quick_sound (m : Matcher) (payee : String) (p : FPost) :
-    ∀ (pr : Pred) (b : Bool), pr.quick m p.account = some b → pr.eval m payee p = b := by
+theorem quick_sound (m : Matcher) (ctx : List FPost) (payee : String) (p : FPost) :
+    ∀ (pr : Pred) (b : Bool), pr.quick m p.account = some b → pr.eval m ctx payee p = b := by
   intro pr
   induction pr with
   | const c => intro b h; simp [Pred.quick] at h; simp [Pred.eval, h]
@@ -36,6 +122,8 @@ theorem quick_sound (m : Matcher) (payee : String) (p : FPost) :
   | amtLt n => intro b h; simp [Pred.quick] at h
   | amtGe n => intro b h; simp [Pred.quick] at h
   | amtLe n => intro b h; simp [Pred.quick] at h
+  | any a _ => intro b h; simp [Pred.quick] at h
+  | all a _ => intro b h; simp [Pred.quick] at h
   | not a iha =>
     intro b h
     simp only [Pred.quick, Option.map_eq_some_iff] at h
@@ -71,21 +159,21 @@ def MemoOK (m : Matcher) (pr : Pred) (st : RState) : Prop :=
 theorem memoOK_init (m : Matcher) (pr : Pred) : MemoOK m pr RState.init := by
   intro a b h; simp [RState.init] at h
 
-theorem matchPost_fst (m : Matcher) (pr : Pred) (payee : String) (st : RState) (p : FPost)
-    (h : MemoOK m pr st) : (matchPost m pr payee st p).1 = pr.eval m payee p := by
+theorem matchPost_fst (m : Matcher) (pr : Pred) (ctx : List FPost) (payee : String) (st : RState) (p : FPost)
+    (h : MemoOK m pr st) : (matchPost m pr ctx payee st p).1 = pr.eval m ctx payee p := by
   unfold matchPost
   split
   · split
     · rename_i b hb
-      exact (quick_sound m payee p pr b (h _ _ hb)).symm
+      exact (quick_sound m ctx payee p pr b (h _ _ hb)).symm
     · split
       · rename_i b hb
-        exact (quick_sound m payee p pr b hb).symm
+        exact (quick_sound m ctx payee p pr b hb).symm
       · rfl
   · rfl
 
-theorem matchPost_ok (m : Matcher) (pr : Pred) (payee : String) (st : RState) (p : FPost)
-    (h : MemoOK m pr st) : MemoOK m pr (matchPost m pr payee st p).2 := by
+theorem matchPost_ok (m : Matcher) (pr : Pred) (ctx : List FPost) (payee : String) (st : RState) (p : FPost)
+    (h : MemoOK m pr st) : MemoOK m pr (matchPost m pr ctx payee st p).2 := by
   unfold matchPost
   split
   · split
@@ -102,180 +190,431 @@ theorem matchPost_ok (m : Matcher) (pr : Pred) (payee : String) (st : RState) (p
       · intro a c hl; exact h a c hl
   · exact h
 
-/-! ### the loop over the snapshot -/
+/-! ### the loop: code refines specification -/
 
-theorem additions_nil (m : Matcher) (env : PrecEnv) (r : Rule) (payee : String) :
-    additions m env r payee [] = [] := rfl
+theorem loop_nil {σ : Type} (dec : σ → List FPost → FPost → Bool × σ) (env : PrecEnv) (r : Rule) (x : FXact)
+    (st : σ) (done added : List FPost) (w : Nat) :
+    loop dec env r x st done [] added w = (st, .ok { origs := done, added := added, warns := w }) := by
+  rw [loop]
 
-theorem additions_cons (m : Matcher) (env : PrecEnv) (r : Rule) (payee : String) (ip : FPost) (ps : List FPost) :
-    additions m env r payee (ip :: ps) =
-      (if r.matches m payee ip then r.lines.map (genPost env ip) else []) ++ additions m env r payee ps := by
-  unfold additions
-  by_cases h : r.matches m payee ip = true
-  · simp [h]
-  · simp [h]
+theorem loop_cons {σ : Type} (dec : σ → List FPost → FPost → Bool × σ) (env : PrecEnv) (r : Rule) (x : FXact)
+    (st : σ) (done : List FPost) (ip : FPost) (rest added : List FPost) (w : Nat) :
+    loop dec env r x st done (ip :: rest) added w =
+      if ip.generated then loop dec env r x st (done ++ [ip]) rest added w
+      else
+        if (dec st (done ++ ip :: rest ++ added) ip).1 then
+          match runChecks env (annotate r ip) r.checks with
+          | .error e => ((dec st (done ++ ip :: rest ++ added) ip).2, .error e)
+          | .ok k =>
+            match genLines env r x (annotate r ip) 0 r.lines with
+            | .error e => ((dec st (done ++ ip :: rest ++ added) ip).2, .error e)
+            | .ok gens => loop dec env r x (dec st (done ++ ip :: rest ++ added) ip).2 (done ++ [annotate r ip]) rest
+                            (added ++ gens) (w + k)
+        else loop dec env r x (dec st (done ++ ip :: rest ++ added) ip).2 (done ++ [ip]) rest added w := by
+  rw [loop]; rfl
 
-theorem additions_append (m : Matcher) (env : PrecEnv) (r : Rule) (payee : String) (ps qs : List FPost) :
-    additions m env r payee (ps ++ qs) = additions m env r payee ps ++ additions m env r payee qs := by
+/-- the decision procedure of the code and of the specification -/
+def decCode (m : Matcher) (r : Rule) (x : FXact) : RState → List FPost → FPost → Bool × RState :=
+  fun s ctx ip => matchPost m r.pred ctx x.payee s ip
+
+def decSpec (m : Matcher) (r : Rule) (x : FXact) : Unit → List FPost → FPost → Bool × Unit :=
+  fun u ctx ip => (r.pred.eval m ctx x.payee ip, u)
+
+theorem loop_refines (m : Matcher) (env : PrecEnv) (r : Rule) (x : FXact) :
+    ∀ (rest : List FPost) (st : RState) (done added : List FPost) (w : Nat), MemoOK m r.pred st →
+      (loop (decCode m r x) env r x st done rest added w).2 =
+        (loop (decSpec m r x) env r x () done rest added w).2 ∧
+      MemoOK m r.pred (loop (decCode m r x) env r x st done rest added w).1 := by
+  intro rest
+  induction rest with
+  | nil => intro st done added w h; rw [loop_nil, loop_nil]; exact ⟨rfl, h⟩
+  | cons ip rest ih =>
+    intro st done added w h
+    rw [loop_cons, loop_cons]
+    by_cases hg : ip.generated = true
+    · simp only [hg, if_true]
+      exact ih st _ _ _ h
+    · simp only [hg, Bool.false_eq_true, if_false]
+      have h1 : (decCode m r x st (done ++ ip :: rest ++ added) ip).1 =
+          (decSpec m r x () (done ++ ip :: rest ++ added) ip).1 :=
+        matchPost_fst m r.pred _ x.payee st ip h
+      have h2 : MemoOK m r.pred (decCode m r x st (done ++ ip :: rest ++ added) ip).2 :=
+        matchPost_ok m r.pred _ x.payee st ip h
+      rw [h1]
+      by_cases hm : (decSpec m r x () (done ++ ip :: rest ++ added) ip).1 = true
+      · simp only [hm, if_true]
+        cases runChecks env (annotate r ip) r.checks with
+        | error e => exact ⟨rfl, h2⟩
+        | ok k =>
+          cases genLines env r x (annotate r ip) 0 r.lines with
+          | error e => exact ⟨rfl, h2⟩
+          | ok gens => exact ih _ _ _ _ h2
+      · simp only [hm, Bool.false_eq_true, if_false]
+        exact ih _ _ _ _ h2
+
+theorem extendGo_refines (m : Matcher) (env : PrecEnv) (r : Rule) (x : FXact) (st : RState)
+    (h : MemoOK m r.pred st) :
+    (extendGo m env r x st).2 = specGo m env r x ∧ MemoOK m r.pred (extendGo m env r x st).1 :=
+  loop_refines m env r x x.posts st [] [] 0 h
+
+theorem extend_refines (m : Matcher) (env : PrecEnv) (r : Rule) (st : RState) (x : FXact)
+    (h : MemoOK m r.pred st) :
+    (extend m env r st x).2 = extendSpec m env r x ∧ MemoOK m r.pred (extend m env r st x).1 := by
+  have := extendGo_refines m env r x st h
+  unfold extend extendSpec
+  exact ⟨by rw [this.1], this.2⟩
+
+/-! ### what the specification loop produces, for every predicate -/
+
+/-- generic facts about a successful run of the loop: the originals stay in
+    place (pointwise equal up to the note), everything appended is flagged
+    generated. -/
+theorem genPost_generated {env : PrecEnv} {r : Rule} {x : FXact} {ip : FPost} {i : Nat} {l : RuleLine} {g : FPost}
+    (h : genPost env r x ip i l = .ok g) : g.generated = true := by
+  unfold genPost at h
+  split at h
+  · cases h
+  · cases h
+    exact (foldl_appendNote_same _ _).2.2.2.2.2.2.1
+
+theorem genLines_generated {env : PrecEnv} {r : Rule} {x : FXact} {ip : FPost} :
+    ∀ (ls : List RuleLine) (i : Nat) (gs : List FPost), genLines env r x ip i ls = .ok gs →
+      ∀ g ∈ gs, g.generated = true := by
+  intro ls
+  induction ls with
+  | nil => intro i gs h; simp [genLines] at h; subst h; intro g hg; cases hg
+  | cons l ls ih =>
+    intro i gs h
+    simp only [genLines] at h
+    split at h
+    · cases h
+    · rename_i g0 hg0
+      split at h
+      · cases h
+      · rename_i gs0 hgs0
+        cases h
+        intro g hg
+        rcases List.mem_cons.mp hg with rfl | hg
+        · exact genPost_generated hg0
+        · exact ih _ _ hgs0 g hg
+
+theorem genLines_length {env : PrecEnv} {r : Rule} {x : FXact} {ip : FPost} :
+    ∀ (ls : List RuleLine) (i : Nat) (gs : List FPost), genLines env r x ip i ls = .ok gs → gs.length = ls.length := by
+  intro ls
+  induction ls with
+  | nil => intro i gs h; simp [genLines] at h; subst h; rfl
+  | cons l ls ih =>
+    intro i gs h
+    simp only [genLines] at h
+    split at h
+    · cases h
+    · split at h
+      · cases h
+      · rename_i gs0 hgs0
+        cases h
+        simp [ih _ _ hgs0]
+
+theorem genLines_get {env : PrecEnv} {r : Rule} {x : FXact} {ip : FPost} :
+    ∀ (ls : List RuleLine) (i : Nat) (gs : List FPost), genLines env r x ip i ls = .ok gs →
+      ∀ (k : Nat) (l : RuleLine), ls[k]? = some l → ∃ g, gs[k]? = some g ∧ genPost env r x ip (i + k) l = .ok g := by
+  intro ls
+  induction ls with
+  | nil => intro i gs _ k l hk; simp at hk
+  | cons l0 ls ih =>
+    intro i gs h k l hk
+    simp only [genLines] at h
+    split at h
+    · cases h
+    · rename_i g0 hg0
+      split at h
+      · cases h
+      · rename_i gs0 hgs0
+        cases h
+        cases k with
+        | zero =>
+          simp at hk; subst hk
+          exact ⟨g0, by simp, by simpa using hg0⟩
+        | succ k =>
+          simp at hk
+          obtain ⟨g, hg1, hg2⟩ := ih _ _ hgs0 k l hk
+          refine ⟨g, by simpa using hg1, ?_⟩
+          have : i + (k + 1) = i + 1 + k := by omega
+          rw [this]; exact hg2
+
+/-- two lists related position by position -/
+inductive Pointwise {α : Type} (R : α → α → Prop) : List α → List α → Prop
+  | nil : Pointwise R [] []
+  | cons {a b : α} {as bs : List α} : R a b → Pointwise R as bs → Pointwise R (a :: as) (b :: bs)
+
+theorem Pointwise.length_eq {α : Type} {R : α → α → Prop} {as bs : List α} (h : Pointwise R as bs) :
+    as.length = bs.length := by
+  induction h with
+  | nil => rfl
+  | cons _ _ ih => simp [ih]
+
+theorem Pointwise.get {α : Type} {R : α → α → Prop} {as bs : List α} (h : Pointwise R as bs) :
+    ∀ (k : Nat) (a b : α), as[k]? = some a → bs[k]? = some b → R a b := by
+  induction h with
+  | nil => intro k a b h1; simp at h1
+  | cons hab _ ih =>
+    intro k a b h1 h2
+    cases k with
+    | zero => simp at h1 h2; subst h1; subst h2; exact hab
+    | succ k => simp at h1 h2; exact ih k a b h1 h2
+
+theorem loop_shape {σ : Type} (dec : σ → List FPost → FPost → Bool × σ) (env : PrecEnv) (r : Rule) (x : FXact) :
+    ∀ (rest : List FPost) (st : σ) (done added : List FPost) (w : Nat) (o : LoopOut),
+      (loop dec env r x st done rest added w).2 = .ok o →
+      (∃ rest', o.origs = done ++ rest' ∧ Pointwise SameButNote rest' rest) ∧
+      (∃ more, o.added = added ++ more ∧ ∀ g ∈ more, g.generated = true) := by
+  intro rest
+  induction rest with
+  | nil =>
+    intro st done added w o h
+    simp only [loop_nil] at h
+    cases h
+    exact ⟨⟨[], by simp, Pointwise.nil⟩, ⟨[], by simp, by intro g hg; cases hg⟩⟩
+  | cons ip rest ih =>
+    intro st done added w o h
+    rw [loop_cons] at h
+    by_cases hg : ip.generated = true
+    · simp only [hg, if_true] at h
+      obtain ⟨⟨rest', h1, h2⟩, h3⟩ := ih _ _ _ _ _ h
+      exact ⟨⟨ip :: rest', by simp [h1], Pointwise.cons (SameButNote.refl ip) h2⟩, h3⟩
+    · simp only [hg, Bool.false_eq_true, if_false] at h
+      by_cases hm : (dec st (done ++ ip :: rest ++ added) ip).1 = true
+      · simp only [hm, if_true] at h
+        cases hc : runChecks env (annotate r ip) r.checks with
+        | error e => rw [hc] at h; cases h
+        | ok k =>
+          rw [hc] at h
+          cases hl : genLines env r x (annotate r ip) 0 r.lines with
+          | error e => rw [hl] at h; cases h
+          | ok gens =>
+            rw [hl] at h
+            obtain ⟨⟨rest', h1, h2⟩, ⟨more, h3, h4⟩⟩ := ih _ _ _ _ _ h
+            refine ⟨⟨annotate r ip :: rest', by simp [h1], Pointwise.cons (annotate_same r ip) h2⟩,
+                    ⟨gens ++ more, by simp [h3], ?_⟩⟩
+            intro g hgm
+            rcases List.mem_append.mp hgm with hgm | hgm
+            · exact genLines_generated _ _ _ hl g hgm
+            · exact h4 g hgm
+      · simp only [hm, Bool.false_eq_true, if_false] at h
+        obtain ⟨⟨rest', h1, h2⟩, h3⟩ := ih _ _ _ _ _ h
+        exact ⟨⟨ip :: rest', by simp [h1], Pointwise.cons (SameButNote.refl ip) h2⟩, h3⟩
+
+/-! ### closed form for predicates without any()/all() -/
+
+/-- posting `p` is an original (not generated) posting that satisfies the rule's
+    (context-free) predicate. -/
+def Rule.matches (m : Matcher) (r : Rule) (payee : String) (p : FPost) : Bool :=
+  !p.generated && r.pred.eval m [] payee p
+
+/-- the postings the rule's lines yield for matched posting `ip` (`[]` if a line
+    raises — then the whole extension is an error anyway). -/
+def gensOf (env : PrecEnv) (r : Rule) (x : FXact) (ip : FPost) : List FPost :=
+  match genLines env r x (annotate r ip) 0 r.lines with
+  | .ok gs => gs
+  | .error _ => []
+
+/-- the original postings after the pass: matched ones carry the rule-level notes. -/
+def mark (m : Matcher) (r : Rule) (payee : String) (p : FPost) : FPost :=
+  if r.matches m payee p then annotate r p else p
+
+/-- what rule `r` adds for the posting list `ps`: for each matching posting in
+    order, one posting per rule line in order. -/
+def additions (m : Matcher) (env : PrecEnv) (r : Rule) (x : FXact) (ps : List FPost) : List FPost :=
+  (ps.filter (r.matches m x.payee)).flatMap (gensOf env r x)
+
+/-- the number of `check` warnings for matched posting `ip` (0 if a line raises). -/
+def warnsOf (env : PrecEnv) (r : Rule) (ip : FPost) : Nat :=
+  match runChecks env (annotate r ip) r.checks with
+  | .ok k => k
+  | .error _ => 0
+
+theorem loop_closed (m : Matcher) (env : PrecEnv) (r : Rule) (x : FXact) (haf : r.pred.anyFree = true) :
+    ∀ (rest : List FPost) (done added : List FPost) (w : Nat) (o : LoopOut),
+      (loop (decSpec m r x) env r x () done rest added w).2 = .ok o →
+      o.origs = done ++ rest.map (mark m r x.payee) ∧
+      o.added = added ++ additions m env r x rest ∧
+      o.warns = w + ((rest.filter (r.matches m x.payee)).map (warnsOf env r)).sum ∧
+      ∀ ip ∈ rest, r.matches m x.payee ip = true →
+        (∃ k, runChecks env (annotate r ip) r.checks = .ok k) ∧
+        (∃ gs, genLines env r x (annotate r ip) 0 r.lines = .ok gs) := by
+  intro rest
+  induction rest with
+  | nil =>
+    intro done added w o h
+    rw [loop_nil] at h
+    cases h
+    simp [additions]
+  | cons ip rest ih =>
+    intro done added w o h
+    rw [loop_cons] at h
+    by_cases hg : ip.generated = true
+    · simp only [hg, if_true] at h
+      obtain ⟨h1, h2, h3, h4⟩ := ih _ _ _ _ h
+      have hm : r.matches m x.payee ip = false := by simp [Rule.matches, hg]
+      refine ⟨by simp [h1, mark, hm], by simp [h2, additions, List.filter_cons, hm],
+              by simp [h3, List.filter_cons, hm], ?_⟩
+      intro q hq hqm
+      rcases List.mem_cons.mp hq with rfl | hq
+      · rw [hm] at hqm; cases hqm
+      · exact h4 q hq hqm
+    · simp only [hg, Bool.false_eq_true, if_false] at h
+      have hg' : ip.generated = false := by simpa using hg
+      have hev : (decSpec m r x () (done ++ ip :: rest ++ added) ip).1 = r.pred.eval m [] x.payee ip :=
+        eval_anyFree_ctx m _ [] x.payee ip r.pred haf
+      rw [hev] at h
+      by_cases hm : r.pred.eval m [] x.payee ip = true
+      · have hmm : r.matches m x.payee ip = true := by simp [Rule.matches, hg', hm]
+        simp only [hm, if_true] at h
+        cases hc : runChecks env (annotate r ip) r.checks with
+        | error e => rw [hc] at h; cases h
+        | ok k =>
+          rw [hc] at h
+          cases hl : genLines env r x (annotate r ip) 0 r.lines with
+          | error e => rw [hl] at h; cases h
+          | ok gens =>
+            rw [hl] at h
+            obtain ⟨h1, h2, h3, h4⟩ := ih _ _ _ _ h
+            refine ⟨by simp [h1, mark, hmm], by simp [h2, additions, List.filter_cons, hmm, gensOf, hl],
+                    by simp [h3, List.filter_cons, hmm, warnsOf, hc]; omega, ?_⟩
+            intro q hq hqm
+            rcases List.mem_cons.mp hq with rfl | hq
+            · exact ⟨⟨k, hc⟩, ⟨gens, hl⟩⟩
+            · exact h4 q hq hqm
+      · have hmm : r.matches m x.payee ip = false := by simp [Rule.matches, hm]
+        simp only [hm, Bool.false_eq_true, if_false] at h
+        obtain ⟨h1, h2, h3, h4⟩ := ih _ _ _ _ h
+        refine ⟨by simp [h1, mark, hmm], by simp [h2, additions, List.filter_cons, hmm],
+                by simp [h3, List.filter_cons, hmm], ?_⟩
+        intro q hq hqm
+        rcases List.mem_cons.mp hq with rfl | hq
+        · rw [hmm] at hqm; cases hqm
+        · exact h4 q hq hqm
+
+theorem specGo_closed (m : Matcher) (env : PrecEnv) (r : Rule) (x : FXact) (haf : r.pred.anyFree = true)
+    (o : LoopOut) (h : specGo m env r x = .ok o) :
+    o.origs = x.posts.map (mark m r x.payee) ∧ o.added = additions m env r x x.posts ∧
+    o.warns = ((x.posts.filter (r.matches m x.payee)).map (warnsOf env r)).sum ∧
+    ∀ ip ∈ x.posts, r.matches m x.payee ip = true →
+      (∃ k, runChecks env (annotate r ip) r.checks = .ok k) ∧
+      (∃ gs, genLines env r x (annotate r ip) 0 r.lines = .ok gs) := by
+  have := loop_closed m env r x haf x.posts [] [] 0 o h
+  simpa using this
+
+theorem additions_append (m : Matcher) (env : PrecEnv) (r : Rule) (x : FXact) (ps qs : List FPost) :
+    additions m env r x (ps ++ qs) = additions m env r x ps ++ additions m env r x qs := by
   unfold additions; simp [List.filter_append, List.flatMap_append]
 
-theorem additions_generated (m : Matcher) (env : PrecEnv) (r : Rule) (payee : String) (gs : List FPost)
-    (h : ∀ g ∈ gs, g.generated = true) : additions m env r payee gs = [] := by
+theorem additions_generated (m : Matcher) (env : PrecEnv) (r : Rule) (x : FXact) (gs : List FPost)
+    (h : ∀ g ∈ gs, g.generated = true) : additions m env r x gs = [] := by
   unfold additions
-  have : gs.filter (r.matches m payee) = [] := by
+  have : gs.filter (r.matches m x.payee) = [] := by
     apply List.filter_eq_nil_iff.mpr
     intro g hg
     simp [Rule.matches, h g hg]
   simp [this]
 
-theorem mem_additions_generated (m : Matcher) (env : PrecEnv) (r : Rule) (payee : String) (ps : List FPost)
-    (g : FPost) (h : g ∈ additions m env r payee ps) : g.generated = true := by
+theorem mem_gensOf_generated (env : PrecEnv) (r : Rule) (x : FXact) (ip g : FPost) (h : g ∈ gensOf env r x ip) :
+    g.generated = true := by
+  unfold gensOf at h
+  split at h
+  · rename_i gs hgs; exact genLines_generated _ _ _ hgs g h
+  · cases h
+
+theorem mem_additions_generated (m : Matcher) (env : PrecEnv) (r : Rule) (x : FXact) (ps : List FPost)
+    (g : FPost) (h : g ∈ additions m env r x ps) : g.generated = true := by
   unfold additions at h
-  simp only [List.mem_flatMap, List.mem_map] at h
-  obtain ⟨ip, _, l, _, rfl⟩ := h
-  rfl
+  simp only [List.mem_flatMap] at h
+  obtain ⟨ip, _, hg⟩ := h
+  exact mem_gensOf_generated env r x ip g hg
 
-theorem extendGo_spec (m : Matcher) (env : PrecEnv) (r : Rule) (payee : String) :
-    ∀ (ps : List FPost) (st : RState), MemoOK m r.pred st →
-      (extendGo m env r payee st ps).2 = additions m env r payee ps ∧
-      MemoOK m r.pred (extendGo m env r payee st ps).1 := by
-  intro ps
-  induction ps with
-  | nil => intro st h; exact ⟨rfl, h⟩
-  | cons ip rest ih =>
-    intro st h
-    rw [additions_cons]
-    unfold extendGo
-    by_cases hg : ip.generated = true
-    · simp only [hg, if_true]
-      have := ih st h
-      simp [Rule.matches, hg, this.1, this.2]
-    · have hg' : ip.generated = false := by simpa using hg
-      simp only [hg', Bool.false_eq_true, if_false]
-      have h1 := matchPost_fst m r.pred payee st ip h
-      have h2 := matchPost_ok m r.pred payee st ip h
-      have := ih _ h2
-      refine ⟨?_, this.2⟩
-      simp [Rule.matches, hg', h1, this.1]
+/-- the generated postings do not depend on the matched posting's note or cost:
+    they read its account and amount only. -/
+theorem genAmount_congr (env : PrecEnv) (a : RAmt) (p q : FPost) (h : p.amount = q.amount) :
+    genAmount env a p = genAmount env a q := by
+  unfold genAmount evalPostExpr; rw [h]
 
-theorem extend_spec (m : Matcher) (env : PrecEnv) (r : Rule) (st : RState) (x : FXact)
-    (h : MemoOK m r.pred st) :
-    (extend m env r st x).2 = extendSpec m env r x ∧ MemoOK m r.pred (extend m env r st x).1 := by
-  have := extendGo_spec m env r x.payee x.posts st h
-  unfold extend extendSpec
-  simp [this.1, this.2]
+theorem genPost_congr (env : PrecEnv) (r : Rule) (x : FXact) (p q : FPost) (ha : p.amount = q.amount)
+    (hc : p.account = q.account) (i : Nat) (l : RuleLine) : genPost env r x p i l = genPost env r x q i l := by
+  unfold genPost; rw [genAmount_congr env l.amt p q ha, hc]
 
-theorem extendChecked_spec (m : Matcher) (env : PrecEnv) (r : Rule) (st : RState) (x : FXact)
-    (h : MemoOK m r.pred st) :
-    (extendChecked m env r st x).2 =
-      (if (additions m env r x.payee x.posts).any FPost.mustBalance ∧
-          ¬ balanced env (extendSpec m env r x).posts then .error .unbalanced
-       else .ok (extendSpec m env r x)) ∧
-    MemoOK m r.pred (extendChecked m env r st x).1 := by
-  have h1 := extend_spec m env r st x h
-  have h2 := extendGo_spec m env r x.payee x.posts st h
-  unfold extendChecked
-  simp only [h2.1, h1.1]
-  split <;> simp_all
+theorem genLines_congr (env : PrecEnv) (r : Rule) (x : FXact) (p q : FPost) (ha : p.amount = q.amount)
+    (hc : p.account = q.account) : ∀ (ls : List RuleLine) (i : Nat), genLines env r x p i ls = genLines env r x q i ls := by
+  intro ls
+  induction ls with
+  | nil => intro i; rfl
+  | cons l ls ih => intro i; simp only [genLines]; rw [genPost_congr env r x p q ha hc, ih]
+
+theorem matches_same (m : Matcher) (r : Rule) (payee : String) (p q : FPost) (h : SameButNote p q)
+    (haf : r.pred.anyFree = true) : r.matches m payee p = r.matches m payee q := by
+  unfold Rule.matches
+  rw [eval_sameButNote m [] payee p q h r.pred haf, h.2.2.2.2.2.2.1]
+
+/-! ### verification after the loop -/
+
+theorem finish_ok {env : PrecEnv} {x : FXact} {o : Except LErr LoopOut} {e : Ext} (h : finish env x o = .ok e) :
+    ∃ lo, o = .ok lo ∧ e.xact = { x with posts := lo.origs ++ lo.added } ∧ e.added = lo.added ∧ e.warns = lo.warns ∧
+      (lo.added.any FPost.mustBalance = true → verify env (lo.origs ++ lo.added) = .ok ()) := by
+  unfold finish at h
+  split at h
+  · cases h
+  · rename_i lo
+    refine ⟨lo, rfl, ?_⟩
+    simp only at h
+    split at h
+    · rename_i hmb
+      split at h
+      · cases h
+      · rename_i hv
+        cases h
+        exact ⟨rfl, rfl, rfl, fun _ => hv⟩
+    · rename_i hmb
+      cases h
+      exact ⟨rfl, rfl, rfl, fun hh => absurd hh hmb⟩
+
+/-! ### all rules seen so far -/
 
 /-- every rule's matching state satisfies its invariant. -/
 def AllOK (m : Matcher) (rs : List (Rule × RState)) : Prop := ∀ p ∈ rs, MemoOK m p.1.pred p.2
 
 theorem applyRules_spec (m : Matcher) (env : PrecEnv) :
-    ∀ (rs : List (Rule × RState)) (x : FXact), AllOK m rs →
-      (applyRules m env rs x).2 = applyRulesSpec m env (rs.map (·.1)) x ∧
-      (applyRules m env rs x).1.map (·.1) = rs.map (·.1) ∧
-      AllOK m (applyRules m env rs x).1 := by
+    ∀ (rs : List (Rule × RState)) (x : FXact) (w : Nat), AllOK m rs →
+      (applyRules m env rs x w).2 = applyRulesSpec m env (rs.map (·.1)) x w ∧
+      (applyRules m env rs x w).1.map (·.1) = rs.map (·.1) ∧
+      AllOK m (applyRules m env rs x w).1 := by
   intro rs
   induction rs with
-  | nil => intro x h; exact ⟨rfl, rfl, h⟩
+  | nil => intro x w h; exact ⟨rfl, rfl, h⟩
   | cons p rs ih =>
-    intro x h
+    intro x w h
     obtain ⟨r, st⟩ := p
     have hst : MemoOK m r.pred st := h (r, st) (List.mem_cons_self ..)
     have hrs : AllOK m rs := fun q hq => h q (List.mem_cons_of_mem _ hq)
-    have hc := extendChecked_spec m env r st x hst
+    have hc := extend_refines m env r st x hst
     unfold applyRules
     simp only [List.map_cons, applyRulesSpec]
-    generalize hec : extendChecked m env r st x = ec at hc
+    generalize hec : extend m env r st x = ec at hc
     obtain ⟨st', res⟩ := ec
     simp only at hc
-    by_cases hcond : (additions m env r x.payee x.posts).any FPost.mustBalance ∧
-        ¬ balanced env (extendSpec m env r x).posts
-    · rw [if_pos hcond] at hc
-      rw [if_pos hcond]
-      obtain ⟨hres, hok⟩ := hc
-      subst hres
+    obtain ⟨hres, hok⟩ := hc
+    rw [← hres]
+    cases res with
+    | error e =>
       refine ⟨rfl, rfl, ?_⟩
       intro q hq
       rcases List.mem_cons.mp hq with rfl | hq
       · exact hok
       · exact hrs q hq
-    · rw [if_neg hcond] at hc
-      rw [if_neg hcond]
-      obtain ⟨hres, hok⟩ := hc
-      subst hres
-      have := ih (extendSpec m env r x) hrs
+    | ok e =>
+      have := ih e.xact (w + e.warns) hrs
       refine ⟨this.1, by simp [this.2.1], ?_⟩
       intro q hq
       rcases List.mem_cons.mp hq with rfl | hq
       · exact hok
       · exact this.2.2 q hq
-
-/-! ### closed form of a successful pass of all rules -/
-
-theorem extendSpec_payee (m : Matcher) (env : PrecEnv) (r : Rule) (x : FXact) :
-    (extendSpec m env r x).payee = x.payee := rfl
-
-theorem extendSpec_line (m : Matcher) (env : PrecEnv) (r : Rule) (x : FXact) :
-    (extendSpec m env r x).line = x.line := rfl
-
-/-- additions of a rule over `orig ++ gens` where `gens` are all generated:
-    only the originals count. -/
-theorem additions_orig_gens (m : Matcher) (env : PrecEnv) (r : Rule) (payee : String)
-    (orig gens : List FPost) (h : ∀ g ∈ gens, g.generated = true) :
-    additions m env r payee (orig ++ gens) = additions m env r payee orig := by
-  rw [additions_append, additions_generated m env r payee gens h, List.append_nil]
-
-theorem foldl_extendSpec_posts (m : Matcher) (env : PrecEnv) :
-    ∀ (rs : List Rule) (x : FXact) (gens : List FPost), (∀ g ∈ gens, g.generated = true) →
-      ∀ (orig : List FPost), x.posts = orig ++ gens →
-      (rs.foldl (fun y r => extendSpec m env r y) x).posts =
-        orig ++ gens ++ rs.flatMap (fun r => additions m env r x.payee orig) ∧
-      (rs.foldl (fun y r => extendSpec m env r y) x).payee = x.payee ∧
-      (rs.foldl (fun y r => extendSpec m env r y) x).line = x.line := by
-  intro rs
-  induction rs with
-  | nil => intro x gens _ orig hx; simp [hx]
-  | cons r rs ih =>
-    intro x gens hg orig hx
-    simp only [List.foldl_cons, List.flatMap_cons]
-    have hadd : additions m env r x.payee x.posts = additions m env r x.payee orig := by
-      rw [hx]; exact additions_orig_gens m env r x.payee orig gens hg
-    have hposts : (extendSpec m env r x).posts = orig ++ (gens ++ additions m env r x.payee orig) := by
-      simp only [extendSpec]; rw [hadd, hx, List.append_assoc]
-    have hg' : ∀ g ∈ gens ++ additions m env r x.payee orig, g.generated = true := by
-      intro g hgm
-      rcases List.mem_append.mp hgm with h1 | h1
-      · exact hg g h1
-      · exact mem_additions_generated m env r x.payee orig g h1
-    have := ih (extendSpec m env r x) _ hg' orig hposts
-    simp only [extendSpec_payee, extendSpec_line] at this
-    refine ⟨?_, this.2.1, this.2.2⟩
-    rw [this.1]; simp [List.append_assoc]
-
-theorem applyRulesSpec_ok (m : Matcher) (env : PrecEnv) :
-    ∀ (rs : List Rule) (x y : FXact), applyRulesSpec m env rs x = .ok y →
-      y = rs.foldl (fun z r => extendSpec m env r z) x := by
-  intro rs
-  induction rs with
-  | nil => intro x y h; simp [applyRulesSpec] at h; simp [h]
-  | cons r rs ih =>
-    intro x y h
-    simp only [applyRulesSpec] at h
-    split at h
-    · cases h
-    · simpa using ih _ _ h
 
 /-! ### journal level -/
 
@@ -283,11 +622,6 @@ theorem rulesOf_append (a b : List Item) : rulesOf (a ++ b) = rulesOf a ++ rules
   induction a with
   | nil => rfl
   | cons i is ih => cases i <;> simp [rulesOf, ih]
-
-/-- one step: what it does to the components, in terms of the stateless spec. -/
-theorem step_rule (m : Matcher) (s : LState) (r : Rule) :
-    (step m s (.rule r)).xacts = s.xacts ∧ (step m s (.rule r)).errs = s.errs ∧
-    (step m s (.rule r)).rules = s.rules ++ [(r, RState.init)] := ⟨rfl, rfl, rfl⟩
 
 theorem step_allOK (m : Matcher) (s : LState) (it : Item) (h : AllOK m s.rules) :
     AllOK m (step m s it).rules ∧
@@ -306,7 +640,7 @@ theorem step_allOK (m : Matcher) (s : LState) (it : Item) (h : AllOK m s.rules) 
     split
     · exact ⟨h, rfl⟩
     · rename_i fx _
-      have := applyRules_spec m (PrecTable.get (s.prec.bumpAll (x.posts.filterMap (·.amount)))) s.rules fx h
+      have := applyRules_spec m (PrecTable.get (s.prec.bumpAll (x.posts.filterMap (·.amount)))) s.rules fx 0 h
       split
       · exact ⟨this.2.2, this.2.1⟩
       · exact ⟨this.2.2, this.2.1⟩
@@ -341,47 +675,147 @@ theorem load_snoc (m : Matcher) (a : List Item) (it : Item) :
     load m (a ++ [it]) = step m (load m a) it := by
   simp [load_append, loadFrom]
 
-/-- a step only ever appends to the accepted transactions and to the errors. -/
+/-- a step only ever appends to the accepted transactions, to the errors and to the warnings. -/
 theorem step_prefix (m : Matcher) (s : LState) (it : Item) :
-    s.xacts <+: (step m s it).xacts ∧ s.errs <+: (step m s it).errs := by
+    s.xacts <+: (step m s it).xacts ∧ s.errs <+: (step m s it).errs ∧ s.warns <+: (step m s it).warns := by
   cases it with
-  | rule r => exact ⟨List.prefix_refl _, List.prefix_refl _⟩
+  | rule r => exact ⟨List.prefix_refl _, List.prefix_refl _, List.prefix_refl _⟩
   | xact x =>
     simp only [step]
     split
-    · exact ⟨List.prefix_refl _, List.prefix_append _ _⟩
+    · exact ⟨List.prefix_refl _, List.prefix_append _ _, List.prefix_refl _⟩
     · split
-      · exact ⟨List.prefix_append _ _, List.prefix_refl _⟩
-      · exact ⟨List.prefix_refl _, List.prefix_append _ _⟩
+      · exact ⟨List.prefix_append _ _, List.prefix_refl _, List.prefix_append _ _⟩
+      · exact ⟨List.prefix_refl _, List.prefix_append _ _, List.prefix_refl _⟩
 
 theorem loadFrom_prefix (m : Matcher) :
     ∀ (items : List Item) (s : LState),
-      s.xacts <+: (loadFrom m s items).xacts ∧ s.errs <+: (loadFrom m s items).errs := by
+      s.xacts <+: (loadFrom m s items).xacts ∧ s.errs <+: (loadFrom m s items).errs ∧
+      s.warns <+: (loadFrom m s items).warns := by
   intro items
   induction items with
-  | nil => intro s; exact ⟨List.prefix_refl _, List.prefix_refl _⟩
+  | nil => intro s; exact ⟨List.prefix_refl _, List.prefix_refl _, List.prefix_refl _⟩
   | cons it items ih =>
     intro s
     have h1 := step_prefix m s it
     have h2 := ih (step m s it)
     unfold loadFrom at h2 ⊢
     simp only [List.foldl_cons]
-    exact ⟨h1.1.trans h2.1, h1.2.trans h2.2⟩
+    exact ⟨h1.1.trans h2.1, h1.2.1.trans h2.2.1, h1.2.2.trans h2.2.2⟩
 
-/-! ### the amount comparisons are value_t's -/
+/-! ### check / assert lines -/
 
-theorem eval_amtGt_value (m : Matcher) (payee : String) (p : FPost) (n : Int) :
-    Value.gt (.amt p.amount) (.int n) = .ok ((Pred.amtGt n).eval m payee p) := by
-  simp only [Value.gt, Value.lt, Amount.cmp, Pred.eval, Amount.ofInt, Amount.hasComm]
-  have : ¬ (p.amount.comm ≠ "" ∧ ("" : String) ≠ "" ∧ p.amount.comm ≠ "") := by simp
-  simp only [Except.map]
-  by_cases h1 : p.amount.q < (n : Rat)
-  · have : ¬ ((n : Rat) < p.amount.q) := by grind
-    simp [h1, this]
-  · by_cases h2 : p.amount.q = (n : Rat)
-    · simp [h2, Rat.lt_irrefl]
-    · have : (n : Rat) < p.amount.q := by grind
-      simp [h1, h2, this]
+/-- the verdict of one check line on a posting: the expression's truth value, if it evaluates -/
+def checkTruth (env : PrecEnv) (ip : FPost) (c : Check) : Option Bool :=
+  match evalPostExpr env ip c.expr with
+  | .ok v => some (v.truth env)
+  | .error _ => none
+
+theorem runChecks_check_only (env : PrecEnv) (ip : FPost) :
+    ∀ cs : List Check, (∀ c ∈ cs, c.kind = .check ∧ (checkTruth env ip c).isSome) →
+      runChecks env ip cs = .ok ((cs.filter (fun c => checkTruth env ip c = some false)).length) := by
+  intro cs
+  induction cs with
+  | nil => intro _; rfl
+  | cons c cs ih =>
+    intro h
+    have hc := h c (List.mem_cons_self ..)
+    have hcs := ih (fun d hd => h d (List.mem_cons_of_mem _ hd))
+    simp only [runChecks]
+    cases hev : evalPostExpr env ip c.expr with
+    | error e => have := hc.2; simp [checkTruth, hev] at this
+    | ok v =>
+      have hct : checkTruth env ip c = some (v.truth env) := by simp [checkTruth, hev]
+      simp only [hc.1, hcs]
+      by_cases ht : v.truth env = true
+      · simp [List.filter_cons, hct, ht]
+      · have : v.truth env = false := by simpa using ht
+        simp [List.filter_cons, hct, this]
+
+theorem runChecks_assert_iff (env : PrecEnv) (ip : FPost) :
+    ∀ cs : List Check, runChecks env ip cs = .error .assertFailed ↔
+      ∃ pre c post, cs = pre ++ c :: post ∧ c.kind = .assert ∧ checkTruth env ip c = some false ∧
+        ∀ d ∈ pre, ∃ b, checkTruth env ip d = some b ∧ (d.kind = .assert → b = true) := by
+  intro cs
+  induction cs with
+  | nil =>
+    constructor
+    · intro h; simp [runChecks] at h
+    · rintro ⟨pre, c, post, h, _⟩; simp at h
+  | cons c cs ih =>
+    simp only [runChecks]
+    cases hev : evalPostExpr env ip c.expr with
+    | error e =>
+      constructor
+      · intro h; simp at h
+      · rintro ⟨pre, c', post, h, hk, ht, hp⟩
+        cases pre with
+        | nil =>
+          simp at h; obtain ⟨rfl, rfl⟩ := h
+          simp [checkTruth, hev] at ht
+        | cons d pre =>
+          simp at h; obtain ⟨rfl, rfl⟩ := h
+          obtain ⟨b, hb, _⟩ := hp c (List.mem_cons_self ..)
+          simp [checkTruth, hev] at hb
+    | ok v =>
+      have hct : checkTruth env ip c = some (v.truth env) := by simp [checkTruth, hev]
+      simp only
+      constructor
+      · intro h
+        cases hk : c.kind with
+        | general =>
+          rw [hk] at h; simp only at h
+          obtain ⟨pre, c', post, h1, h2, h3, h4⟩ := ih.mp h
+          refine ⟨c :: pre, c', post, by simp [h1], h2, h3, ?_⟩
+          intro d hd
+          rcases List.mem_cons.mp hd with rfl | hd
+          · exact ⟨v.truth env, hct, fun hh => by rw [hk] at hh; cases hh⟩
+          · exact h4 d hd
+        | assert =>
+          rw [hk] at h; simp only at h
+          by_cases ht : v.truth env = true
+          · simp only [ht, if_true] at h
+            obtain ⟨pre, c', post, h1, h2, h3, h4⟩ := ih.mp h
+            refine ⟨c :: pre, c', post, by simp [h1], h2, h3, ?_⟩
+            intro d hd
+            rcases List.mem_cons.mp hd with rfl | hd
+            · exact ⟨true, by rw [hct, ht], fun _ => rfl⟩
+            · exact h4 d hd
+          · have : v.truth env = false := by simpa using ht
+            exact ⟨[], c, cs, rfl, hk, by rw [hct, this], by intro d hd; cases hd⟩
+        | check =>
+          rw [hk] at h; simp only at h
+          cases hr : runChecks env ip cs with
+          | error e =>
+            rw [hr] at h; simp only at h
+            cases h
+            obtain ⟨pre, c', post, h1, h2, h3, h4⟩ := ih.mp hr
+            refine ⟨c :: pre, c', post, by simp [h1], h2, h3, ?_⟩
+            intro d hd
+            rcases List.mem_cons.mp hd with rfl | hd
+            · exact ⟨v.truth env, hct, fun hh => by rw [hk] at hh; cases hh⟩
+            · exact h4 d hd
+          | ok k => rw [hr] at h; simp at h
+      · rintro ⟨pre, c', post, h, hk, ht, hp⟩
+        cases pre with
+        | nil =>
+          simp at h; obtain ⟨rfl, rfl⟩ := h
+          rw [hct] at ht
+          have : v.truth env = false := by simpa using ht
+          simp [hk, this]
+        | cons d pre =>
+          simp at h; obtain ⟨rfl, rfl⟩ := h
+          have hrest : runChecks env ip (pre ++ c' :: post) = .error .assertFailed :=
+            ih.mpr ⟨pre, c', post, rfl, hk, ht, fun d hd => hp d (List.mem_cons_of_mem _ hd)⟩
+          obtain ⟨b, hb, hba⟩ := hp c (List.mem_cons_self ..)
+          rw [hct] at hb
+          cases hkc : c.kind with
+          | general => simp [hrest]
+          | assert =>
+            have : v.truth env = true := by
+              have := hba hkc; simp at hb; rw [hb]; exact this
+            simp [this, hrest]
+          | check => simp [hrest]
 
 end AutoXact
 end Ledger
